@@ -157,6 +157,10 @@ def run(tier, seed):
     jobs = []
     for n, prog in one:
         jobs.append((n, prog, ("LI", "MLE", "GF")))
+    if tier == "thorough":
+        a1t = tomo.one_qubit_alphabet(env)
+        for g, h, k in itertools.product(a1t, repeat=3):
+            jobs.append((1, [(g, 0), (h, 0), (k, 0)], ("LI", "GF") if (a1t.index(g) + a1t.index(h) + a1t.index(k)) % 7 else ("LI", "MLE", "GF")))
     k_mle = 6 if tier == "quick" else 4
     for i, (n, prog) in enumerate(two):
         if tier == "quick" and i % 2:
